@@ -7,9 +7,11 @@ set -u
 wt=/tmp/suite-wt
 git -C /repo worktree remove --force $wt 2>/dev/null; rm -rf $wt
 git -C /repo worktree add --detach $wt HEAD >/dev/null 2>&1 || exit 2
-FILTER='not (test(test_div_extension) | test(test_cyclic_recursion) | test(test_recursive_recursive_verifier) | test(test_recursive_verifier))'
+# the five tests that time out on the unchanged tree (BASELINE.json "always_fail") are excluded by exact name
+FILTER='not (test(=gadgets::arithmetic_extension::tests::test_div_extension) | test(=recursion::cyclic_recursion::tests::test_cyclic_recursion) | test(=recursion::recursive_verifier::tests::test_recursive_recursive_verifier) | test(=recursion::recursive_verifier::tests::test_recursive_verifier) | test(=recursion::recursive_verifier::tests::test_recursive_verifier_one_lookup))'
+[ -n "${SUITE_FILTER:-}" ] && FILTER="$SUITE_FILTER"
 for d in "$@"; do
-  p=$d/patch.diff; [ -f "$p" ] || p=$d
+  d=$(realpath "$d"); p=$d/patch.diff; [ -f "$p" ] || p=$d
   git -C $wt checkout -q -- . ; git -C $wt clean -fdq -e target
   if ! git -C $wt apply "$p"; then echo "$d: PATCH DOES NOT APPLY" ; continue; fi
   ( cd $wt && CARGO_NET_OFFLINE=true timeout 3000 cargo nextest run --workspace --no-fail-fast --tool-config-file pb:/w/lib/nextest.toml --profile pb --test-threads 8 --offline -E "$FILTER" ) > /tmp/suite-wt.log 2>&1
@@ -18,7 +20,7 @@ for d in "$@"; do
   fails=$(grep -E "^\s+(FAIL|TIMEOUT|SIGABRT|SIGSEGV)" /tmp/suite-wt.log | sed 's/\x1b\[[0-9;]*m//g' | sort -u | head -20)
   out="suite exit=$rc head=$(git -C /repo rev-parse --short HEAD) :: $summary"
   echo "$d: $out"; [ -n "$fails" ] && echo "$fails"
-  [ -d "$d" ] && { echo "$out"; echo "$fails"; } > "$d/suite.txt"
+  [ -d "$d" ] && { echo "$out"; echo "$fails"; } >> "$d/suite.txt"
 done
 git -C /repo worktree remove --force $wt; rm -rf $wt; git -C /repo worktree prune
 echo finished
